@@ -39,20 +39,30 @@ fn gen_list(rng: &mut Rng) -> (Vec<(Universal2DBox, Option<f32>)>, f32, Option<f
     let nclusters = 1 + rng.usize(4);
     let co_oriented = rng.chance(0.35);
     let shared_angle = rng.uniform(0.2, 2.9) as f32;
-    let centres: Vec<(f64, f64, f64)> = (0..nclusters).map(|_| (rng.uniform(0.0, 500.0), rng.uniform(0.0, 500.0), rng.log_uniform(5.0, 80.0))).collect();
+    // a fifth of the lists live in normalised coordinates (image = unit square, box heights 1e-3..1e-1): coverage is a
+    // ratio, so the decisions must not depend on the absolute scale
+    let scale = if rng.chance(0.2) { rng.log_uniform(2e-4, 2e-3) } else { 1.0 };
+    // a quarter of the lists carry detection confidences != 1 (new_with_confidence); the rank of a score-less box is
+    // its height whatever the confidence
+    let with_conf = rng.chance(0.25);
+    let centres: Vec<(f64, f64, f64)> = (0..nclusters).map(|_| (rng.uniform(0.0, 500.0) * scale, rng.uniform(0.0, 500.0) * scale, rng.log_uniform(5.0, 80.0) * scale)).collect();
     let mut v: Vec<(Universal2DBox, Option<f32>)> = vec![];
     for i in 0..n {
         let c = centres[rng.usize(nclusters)];
         let (xc, yc, h, asp) = match style {
-            "sparse" => (rng.uniform(0.0, 3000.0), rng.uniform(0.0, 3000.0), rng.log_uniform(5.0, 80.0), rng.uniform(0.3, 3.0)),
+            "sparse" => (rng.uniform(0.0, 3000.0) * scale, rng.uniform(0.0, 3000.0) * scale, rng.log_uniform(5.0, 80.0) * scale, rng.uniform(0.3, 3.0)),
             "nested" => (c.0 + rng.uniform(-0.1, 0.1) * c.2, c.1 + rng.uniform(-0.1, 0.1) * c.2, c.2 * rng.uniform(0.2, 1.5), rng.uniform(0.5, 2.0)),
             _ => (c.0 + rng.uniform(-1.0, 1.0) * c.2, c.1 + rng.uniform(-1.0, 1.0) * c.2, c.2 * rng.uniform(0.5, 1.5), rng.uniform(0.3, 3.0)),
         };
         // co-oriented lists (all boxes share one non-zero angle, e.g. a row of parked cars) are a case of their own:
         // equal angles are where an axis-aligned shortcut would be tempting
         let angle = if rotated && co_oriented { Some(shared_angle) } else if rotated && rng.chance(0.7) { Some(rng.uniform(0.0, 3.2) as f32) } else { None };
-        let mut b = Universal2DBox::new(xc as f32, yc as f32, angle, asp as f32, h as f32);
-        if (style == "duplicated" || style == "mixed") && i > 0 && rng.chance(0.3) {
+        let mut b = if with_conf {
+            Universal2DBox::new_with_confidence(xc as f32, yc as f32, angle, asp as f32, h as f32, rng.uniform(0.05, 1.0) as f32)
+        } else {
+            Universal2DBox::new(xc as f32, yc as f32, angle, asp as f32, h as f32)
+        };
+        if (style.starts_with("duplicated") || style.starts_with("mixed")) && i > 0 && rng.chance(0.3) {
             let j = rng.usize(v.len());
             b = v[j].0.clone();
         }
@@ -98,19 +108,28 @@ fn gen_list(rng: &mut Rng) -> (Vec<(Universal2DBox, Option<f32>)>, f32, Option<f
         2 => Some(if with_scores == 1 { rng.f32() } else { rng.uniform(0.0, 100.0) as f32 }),
         _ => Some(1000.0),
     };
+    if scale != 1.0 {
+        return (v, thr, st, match style { "clustered" => "clustered/normalised", "sparse" => "sparse/normalised", "nested" => "nested/normalised", "duplicated" => "duplicated/normalised", _ => "mixed/normalised" });
+    }
     (v, thr, st, style)
 }
 
 fn main() {
     let cli = Cli::parse();
     let mut rep = Report::new("C14", &cli);
-    rep.note("rule", json!("case = list of 0..40 boxes (clustered / sparse / nested / duplicated / mixed, rotated or not - 35% of the rotated lists co-oriented (one shared non-zero angle) -, scores none / all / mixed, ~4% invalid boxes), nms threshold in (0,1), score threshold None / below / inside / above. Outputs are mapped to input indices by pointer identity. Checked: subset & filter, non-increasing rank, top-ranked eligible kept, no kept box covered beyond threshold (+1e-4 band) by an earlier kept box, every dropped eligible box covered beyond threshold (-1e-4 band) by some kept box of rank >= its own, nms(nms(x)) == nms(x). Coverage reference = f64 convex intersection / area; 8% of the lists are integer-grid lists whose coverage fractions and threshold are exact binary fractions, judged without band (a box covered by exactly the threshold fraction is NOT suppressed); 10% of the boxes reach their parameters by field writes after gen_vertices(). Non-trivial: at least one box dropped by suppression and at least two kept; distinct by hash of the list."));
+    rep.note("rule", json!("case = list of 0..40 boxes (clustered / sparse / nested / duplicated / mixed, rotated or not - 35% of the rotated lists co-oriented (one shared non-zero angle) -, scores none / all / mixed, ~4% invalid boxes), nms threshold in (0,1), score threshold None / below / inside / above. Outputs are mapped to input indices by pointer identity. Checked: subset & filter, non-increasing rank, top-ranked eligible kept, no kept box covered beyond threshold (+1e-4 band) by an earlier kept box, every dropped eligible box covered beyond threshold (-1e-4 band) by some kept box of rank >= its own, nms(nms(x)) == nms(x). A fifth of the lists are in normalised coordinates (heights 1e-3..1e-1), a quarter carry confidences != 1. Coverage reference = f64 convex intersection / area; 8% of the lists are integer-grid lists whose coverage fractions and threshold are exact binary fractions, judged without band (a box covered by exactly the threshold fraction is NOT suppressed); 10% of the boxes reach their parameters by field writes after gen_vertices(). Non-trivial: at least one box dropped by suppression and at least two kept; distinct by hash of the list."));
     rep.note("assumptions", json!(["finite scores and coordinates", "rank ties: either order accepted (only non-increasing ranks are required)"]));
     let n = cli.cases(200_000, 2_000_000);
     for idx in cli.index_range(n) {
         let mut rng = Rng::for_case(cli.seed, cli.shard, idx);
         let (dets, thr, st, style) = gen_list(&mut rng);
         rep.eval();
+        if style.ends_with("/normalised") {
+            rep.count("lists_in_normalised_coordinates");
+        }
+        if dets.iter().any(|(b, s)| s.is_none() && b.confidence != 1.0) {
+            rep.count("lists_with_scoreless_boxes_of_confidence_below_1");
+        }
         let out = nms(&dets, thr, st);
         let base = dets.as_ptr() as usize;
         let sz = std::mem::size_of::<(Universal2DBox, Option<f32>)>();
@@ -131,7 +150,7 @@ fn main() {
         }
         let case_js = || {
             json!({"style": style, "nms_threshold": thr, "score_threshold": st,
-            "boxes": dets.iter().map(|(b, s)| json!([b.xc, b.yc, b.angle, b.aspect, b.height, s])).collect::<Vec<_>>(), "kept": out_idx})
+            "boxes[xc,yc,angle,aspect,height,confidence,score]": dets.iter().map(|(b, s)| json!([b.xc, b.yc, b.angle, b.aspect, b.height, b.confidence, s])).collect::<Vec<_>>(), "kept": out_idx})
         };
         if bad_ptr {
             rep.violation("C14/output-not-from-input", idx, case_js());
